@@ -303,4 +303,17 @@ pub fn run(r: &mut Runner) {
             rec.record(l, (1u64 << 41) + (i * ny + j) as u64, v);
         }
     });
+    {
+        let org = crate::organic::states(if quick { 1 } else { 2 });
+        let no = org.len();
+        r.notes.push(format!("organic operands: {} chain states (depth {} from the C01 seeds)", no, if quick { 1 } else { 2 }));
+        r.par("organic operands (chain results): exp, exp2, exp_m1", no.div_ceil(128), no as u64, |c, l| {
+            for i in (c * 128)..((c + 1) * 128).min(no) {
+                for call in 0..3 {
+                    let v = judge1(call, org[i], Some(l));
+                    rec.record(l, (1u64 << 60) + (i * 3 + call) as u64, v);
+                }
+            }
+        });
+    }
 }
